@@ -219,6 +219,11 @@ fn deriv() -> impl Strategy<Value = Deriv> {
         .prop_map(|(grad, hess, rot, as_float)| Deriv { grad, hess, rot, as_float })
 }
 
+/// exponent of the power-of-two scale of a system: mostly 0, otherwise far from 1 in either direction
+fn scale_exp() -> impl Strategy<Value = i32> {
+    prop_oneof![6 => Just(0i32), 1 => -70i32..=-35, 1 => 35i32..=70]
+}
+
 fn case_strategy() -> impl Strategy<Value = Case> {
     (
         0u8..8,
@@ -232,9 +237,9 @@ fn case_strategy() -> impl Strategy<Value = Case> {
         proptest::collection::vec(-3.0f64..3.0, 12),
         proptest::collection::vec(deriv(), 12 * 8),
         proptest::collection::vec(deriv(), 12),
-        (any::<u8>(), any::<bool>(), prop::bool::weighted(0.3), prop::sample::select(vec![0u8, 0, 1, 1, 2]), prop::bool::weighted(0.15)),
+        (any::<u8>(), any::<bool>(), prop::bool::weighted(0.3), prop::sample::select(vec![0u8, 0, 1, 1, 2]), prop::bool::weighted(0.15), scale_exp(), scale_exp()),
     )
-        .prop_map(|(mode, n, extra, l, u, d, pseed, xrows, b, da, db, (perm_rot, perm_rev, identity_l, layout, square_lsq))| {
+        .prop_map(|(mode, n, extra, l, u, d, pseed, xrows, b, da, db, (perm_rot, perm_rev, identity_l, layout, square_lsq, a_exp, b_exp))| {
             let cols = if extra > 0 { n.min(6) } else { n };
             let rows = cols + extra;
             // least squares is also allowed (and then used) on a square system
@@ -262,16 +267,23 @@ fn case_strategy() -> impl Strategy<Value = Case> {
                 let j = (pseed[i % 12] as usize) % (i + 1);
                 order.swap(i, j);
             }
-            let a: Vec<Fl> = order.iter().flat_map(|r| rows_v[*r].iter().map(|x| Fl(*x)).collect::<Vec<_>>()).collect();
+            // the whole of A (values and derivative content) and of b are scaled by exact powers of
+            // two: conditioning does not depend on scale, so the property must hold unchanged.
+            // (Scaling single equations is NOT done: a graded system has a huge condition number
+            // in the usual sense, partial pivoting is not row-scaling invariant, and the property
+            // speaks of well-conditioned systems.)
+            let (sa, sb) = (2f64.powi(a_exp), 2f64.powi(b_exp));
+            let scaled = |d: &Deriv, s: f64| Deriv { grad: d.grad.iter().map(|(n, c)| (*n, Fl(c.0 * s))).collect(), hess: d.hess.iter().map(|(i, j, c)| (*i, *j, Fl(c.0 * s))).collect(), rot: d.rot, as_float: d.as_float };
+            let a: Vec<Fl> = order.iter().flat_map(|r| rows_v[*r].iter().map(|x| Fl(*x * sa)).collect::<Vec<_>>()).collect();
             Case {
                 mode,
                 rows,
                 cols,
                 lsq,
                 a,
-                b: b[..rows].iter().map(|x| Fl(*x)).collect(),
-                da: da[..rows * cols].to_vec(),
-                db: db[..rows].to_vec(),
+                b: b[..rows].iter().map(|x| Fl(*x * sb)).collect(),
+                da: da[..rows * cols].iter().map(|d| scaled(d, sa)).collect(),
+                db: db[..rows].iter().map(|d| scaled(d, sb)).collect(),
                 perm_rot,
                 perm_rev,
                 layout,
@@ -488,6 +500,9 @@ impl Property for C13 {
         v.label(["layout:row-major", "layout:column-major", "layout:strided"][(c.layout % 3) as usize]);
         v.label_if(c.lsq, "least-squares");
         v.label_if(c.lsq && c.rows == c.cols, "least-squares:square-system");
+        let amax = c.a.iter().fold(0.0f64, |m, x| m.max(x.0.abs()));
+        v.label_if(amax < 1e-9, "scale:tiny-matrix");
+        v.label_if(amax > 1e9, "scale:huge-matrix");
         let d = c.dense();
         // the square system actually solved: A itself or the normal equations
         let (m0, m1, m2, c0, c1, c2): (M, [M; 3], [[M; 3]; 3], Vec<f64>, [Vec<f64>; 3], [[Vec<f64>; 3]; 3]) = if c.lsq {
@@ -632,7 +647,7 @@ impl Property for C13 {
     }
 
     fn rule(&self) -> String {
-        "random systems: square 1-8 (least squares allowed on 15% of them) and tall up to 14x6 (least squares), real parts built as (unit lower, or identity) x (sparse upper with |diagonal| in [0.5,2]) with the rows shuffled so that zeros land on the diagonal and partial pivoting must swap (also in later columns); A and b are handed over as row-major, column-major (transposed view, as numpy's A.T arrives) or strided views; entries lifted to derivative content over 3 names with differing variable orders; element types dsolve::<f64|Dual|Dual2|Number> (Number mixes floats with one dual kind in A and b) and fdsolve with b of f64|Dual|Dual2. Oracle: the returned x, read by name, must satisfy A0 x0 = b0, A0 x_k + A_k x0 = b_k and A_kl x0 + A_k x_l + A_l x_k + A0 x_kl = b_kl (for least squares the same identities for A^T A x = A^T b) with residuals <= 1e-9 x cond x sum of absolute terms; solving the row-permuted system gives the same x. Draws with cond >= 1e6 are skipped and counted. Non-trivial: n >= 2, a row swap is needed, and a non-zero derivative is present.".into()
+        "random systems: square 1-8 (least squares allowed on 15% of them) and tall up to 14x6 (least squares), real parts built as (unit lower, or identity) x (sparse upper with |diagonal| in [0.5,2]) with the rows shuffled so that zeros land on the diagonal and partial pivoting must swap (also in later columns); A (values and derivative content) and b are each scaled by an exact power of two (1 in 75% of draws, otherwise 2^+-35..70); A and b are handed over as row-major, column-major (transposed view, as numpy's A.T arrives) or strided views; entries lifted to derivative content over 3 names with differing variable orders; element types dsolve::<f64|Dual|Dual2|Number> (Number mixes floats with one dual kind in A and b) and fdsolve with b of f64|Dual|Dual2. Oracle: the returned x, read by name, must satisfy A0 x0 = b0, A0 x_k + A_k x0 = b_k and A_kl x0 + A_k x_l + A_l x_k + A0 x_kl = b_kl (for least squares the same identities for A^T A x = A^T b) with residuals <= 1e-9 x cond x sum of absolute terms; solving the row-permuted system gives the same x. Draws with cond >= 1e6 are skipped and counted. Non-trivial: n >= 2, a row swap is needed, and a non-zero derivative is present.".into()
     }
 
     fn floors(&self, tier: Tier) -> Vec<Floor> {
@@ -643,6 +658,8 @@ impl Property for C13 {
             Floor { label: "pivot:zero-on-diagonal", min: n / 10 },
             Floor { label: "least-squares", min: n / 10 },
             Floor { label: "least-squares:square-system", min: n / 20 },
+            Floor { label: "scale:tiny-matrix", min: n / 20 },
+            Floor { label: "scale:huge-matrix", min: n / 20 },
             Floor { label: "row-permutation:checked", min: n / 3 },
             Floor { label: "layout:column-major", min: n / 5 },
             Floor { label: "layout:strided", min: n / 10 },
